@@ -1301,6 +1301,24 @@ func validHeaderValue(v string) bool {
 	return true
 }
 
+// validHeaderName reports whether name is an HTTP header field name (a token,
+// RFC 7230 3.2.6).
+func validHeaderName(name string) bool {
+	if name == "" {
+		return false
+	}
+	for i := 0; i < len(name); i++ {
+		c := name[i]
+		switch {
+		case c >= 'a' && c <= 'z', c >= 'A' && c <= 'Z', c >= '0' && c <= '9':
+		case strings.IndexByte("!#$%&'*+-.^_`|~", c) >= 0:
+		default:
+			return false
+		}
+	}
+	return true
+}
+
 func metadataHeaders(headers map[string][]string, at time.Time, sizeLimit int) (map[string]string, error) {
 	meta := make(map[string]string)
 	for hk, hv := range headers {
@@ -1308,6 +1326,13 @@ func metadataHeaders(headers map[string][]string, at time.Time, sizeLimit int) (
 			hk == "Content-Type" ||
 			hk == "Content-Disposition" ||
 			hk == "Content-Encoding" {
+			if !validHeaderName(hk) {
+				// A form field may be named anything; this one could neither
+				// be sent back as a header nor, on s3bolt, be stored (a NUL
+				// in a metadata name corrupts the BSON document, and with
+				// it every listing of the bucket).
+				return meta, ErrorMessagef(ErrInvalidArgument, "%q is not a header name", hk)
+			}
 			// A header sent on several lines is the list of their values.
 			v := strings.Join(hv, ",")
 			if !validHeaderValue(v) {
